@@ -131,6 +131,32 @@ def run(ctx):
                 ctx.counterexample('a raising on_validate_file for %r: yielded %r, expected on_error then on_skip values in place' % (target, got[:6]), {'target': target})
             if w.get_skipped() != w0.get_skipped() + (1 if ('M', target) in full else 0):
                 ctx.counterexample('skipped counter wrong after a raising hook', {'target': target})
+        # a run starts when its iterator is first advanced, not when imatch() is called: iterators obtained early
+        w = Rec(T.root, '*.txt', flags=WM.RECURSIVE)
+        one_run = None
+        for order in ('two-iterators', 'iterator-then-match'):
+            evals += 1
+            w = Rec(T.root, '*.txt', flags=WM.RECURSIVE)
+            if order == 'two-iterators':
+                it1, it2 = w.imatch(), w.imatch()
+                r1 = list(it1)
+                s1 = w.get_skipped()
+                cut = len(w.log)
+                r2 = list(it2)
+                s2 = w.get_skipped()
+            else:
+                it1 = w.imatch()
+                r1 = w.match()
+                s1 = w.get_skipped()
+                cut = len(w.log)
+                r2 = list(it1)
+                s2 = w.get_skipped()
+            log1, log2 = w.log[:cut], w.log[cut:]
+            if not (r1 == full == r2) or s1 != w0.get_skipped() or s2 != w0.get_skipped() or log1 != log2 or log1[:1] != [('reset', None)] or \
+                    sum(1 for e in log1 if e[0] == 'reset') != 1:
+                ctx.counterexample('%s on one object: the two runs are not identical complete runs (files %d/%d of %d, skipped %d/%d of %d, resets per run %d/%d)' % (
+                    order, len(r1), len(r2), len(full), s1, s2, w0.get_skipped(), sum(1 for e in log1 if e[0] == 'reset'), sum(1 for e in log2 if e[0] == 'reset')),
+                    {'sequence': order, 'pattern': '*.txt'})
         # interleavings of calls on one object
         import itertools
         ops = ['match', 'imatch', 'kill', 'reset', 'is_aborted']
